@@ -5,7 +5,7 @@ import ast
 
 from sa.cfg import CFG, ReachingDefs
 from sa.dataflow import FnFlow
-from sa.model import Program, norm, walk_no_nested
+from sa.model import Program, alpha, norm, walk_no_nested
 from sa.report import Results
 from sa.taint import Taint, TEXT, COUNT
 from sa.util import callee, dotted, strip_not
@@ -28,7 +28,7 @@ def run(prog: Program) -> Results:
     seen = set()
     bad1 = [s for s in t.sinks if s[0] == "R-C18-1"]
     for rule, f, node, kinds, what in bad1:
-        key = (f.key if f else "?", "raw gap text in output", norm(node)[:80])
+        key = (f.key if f else "?", "raw gap text in output", alpha(node, (f.parent or f).node if f else None)[:80])
         if key in seen:
             continue
         seen.add(key)
@@ -47,7 +47,7 @@ def run(prog: Program) -> Results:
     r2.obligations = t.mults_checked
     seen2 = set()
     for rule, f, node, kinds, what in [s for s in t.sinks if s[0] == "R-C18-2"]:
-        key = (f.key if f else "?", "unclamped newline count", norm(node)[:80])
+        key = (f.key if f else "?", "unclamped newline count", alpha(node, (f.parent or f).node if f else None)[:80])
         if key in seen2:
             continue
         seen2.add(key)
@@ -113,7 +113,7 @@ def run(prog: Program) -> Results:
             ok = txt.startswith('" " * indent') or txt.startswith('f"{" " * indent}') or "indentation" in txt.split("+")[0]
             r4.ob(ok and base_ok, {"return": norm(rt.ast)[:50], "starts_with": txt[:40]})
             if not ok:
-                res.add("R-C18-4", (mr.key, "no indentation", txt[:40]), mr.loc(sv),
+                res.add("R-C18-4", (mr.key, "no indentation", alpha(sv, mr.node)[:40]), mr.loc(sv),
                         f"MultilineComment.rebuild builds `{txt[:50]}` without the `\" \" * indent` prefix that Comment.rebuild applies: "
                         f"an own-line block comment loses its indentation")
 
@@ -166,7 +166,7 @@ def run(prog: Program) -> Results:
                     bad.append(c)
             r5.ob(not bad, {"site": f.key, "trimmed": f"{x}.before -> {tv}", "renders_of_untrimmed_after_trim": [norm(b)[:50] for b in bad]})
             for c in bad:
-                res.add("R-C18-5", (f.key, "untrimmed node rendered after its separator", x), f.loc(c),
+                res.add("R-C18-5", (f.key, "untrimmed node rendered after its separator"), f.loc(c),
                         f"{f.key}: `{norm(c)[:70]}` renders `{x}` although its leading layout trivia were trimmed into `{tv}` for this "
                         f"position and neither `{x}` was replaced by the trimmed copy nor `{tv} == {x}.before` established: the blank "
                         f"line encoded by the separator would be emitted twice")
@@ -198,7 +198,7 @@ def run(prog: Program) -> Results:
                     bad = isinstance(prev, ast.Name) and prev.id in inline_dep
                     r6.ob(not bad, {"site": f.key, "closing": sg.value[:1], "preceded_by": norm(prev)[:30]})
                     if bad:
-                        res.add("R-C18-6", (f.key, "closing delimiter uses inline-dependent indent", norm(prev)), f.loc(n),
+                        res.add("R-C18-6", (f.key, "closing delimiter uses inline-dependent indent"), f.loc(n),
                                 f"{f.key}: the closing `{sg.value[:1]}` on its own line is prefixed by `{norm(prev)}`, which is empty when "
                                 f"the node is rendered inline (binding value, argument): the delimiter lands at column 0")
     res.assumptions = ["`;`/`:` attachment and exactly-one-space between tokens are value-level facts not decided here"]
